@@ -136,6 +136,11 @@ func (b *BFT) CheckProposerMessage(x *Message, p *validateMessageParams) (isPart
 		return false, lib.ErrInvalidQCCommitteeHeight()
 	}
 	if x.Header.Phase == Propose {
+		// the election certificate must be the one of this very round: a validator elected in an earlier
+		// round of this height must not be able to act as the leader of later rounds with its old certificate
+		if !justifiesLeaderPhase(x.Qc.Header, x.Header) {
+			return false, lib.ErrWrongPhase()
+		}
 		// ensure the sender is justified as the proposer
 		if !bytes.Equal(x.Qc.ProposerKey, x.Signature.PublicKey) {
 			return false, lib.ErrInvalidSigner()
